@@ -35,6 +35,7 @@ def main():
     if a.tier not in ("quick", "thorough"):
         a.tier = "quick"
     mod = importlib.import_module(a.prop.lower())
+    common.PARTIAL[0] = bool(a.configs or a.types)
     try:
         code = mod.run(a.tier, a)
     except common.Broken as e:
